@@ -89,6 +89,16 @@ def run(ctx):
     # merge / accumulate add the whole other vector through merge_vector (which checks the lengths before it writes) and
     # propagate its refusal - directly, or through the private `sum` helper of the reviewed tree (either layout is accepted)
     mv_direct = Call("merge_vector", Field(Arg(1), "0"), Mentions(Arg(2)))
+
+    def whole(e):
+        """the other vector is handed over whole: no sub-slice (x[a..b], split_at, first/last chunk, ..) anywhere in the argument"""
+        for x in walk(e):
+            if isinstance(x, tuple) and x and x[0] in ("slice",):
+                return False
+            if isinstance(x, tuple) and x and x[0] == "call" and len(x) > 4 and (x[4] in ("std::ops::Index::index", "std::ops::IndexMut::index_mut") or
+                                                                                   str(x[1]).split("::")[-1] in ("split_at", "split_first", "split_last", "get", "first_chunk", "last_chunk", "chunks", "truncate")):
+                return False
+        return True
     has_sum = bool(ctx.prog.find(name="sum", self_adt="vdaf::AggregateShare"))
     n_inst = 0
     for nm in ("merge", "accumulate"):
@@ -98,11 +108,12 @@ def run(ctx):
             key = "%s:%s" % (rule, f.id)
             rds = g.retdefs
             n_inst += 1
-            if has_sum and len(rds) == 1 and rds[0].kind == "call" and Call("sum", Arg(1), Mentions(Arg(2)))(rds[0].expr) and not adapters_in(rds[0].expr):
+            if has_sum and len(rds) == 1 and rds[0].kind == "call" and Call("sum", Arg(1), Mentions(Arg(2)))(rds[0].expr) and not adapters_in(rds[0].expr) \
+                    and whole(rds[0].expr):
                 ctx.ok(rule, key, "%s = self.sum(other.as_ref())" % nm, loc=f.loc)
                 continue
             writes = [ce for bi, t in f.body.calls() for ce in [g.eb.call_expr(t)] if t.callee.name in ("merge_vector", "add_assign", "push", "extend", "clear", "truncate")]
-            if len(writes) == 1 and mv_direct(writes[0]) and not adapters_in(writes[0]) and \
+            if len(writes) == 1 and mv_direct(writes[0]) and not adapters_in(writes[0]) and whole(writes[0]) and \
                     ctx.require_try_call(rule, f, mv_direct, desc="merge_vector(self.0, other)", key=key + ":propagated") is not None:
                 ctx.ok(rule, key, "%s = merge_vector(&mut self.0, whole other vector) with its refusal propagated" % nm, loc=f.loc)
             else:
